@@ -77,7 +77,8 @@ def begin_match(m, lin, unsure):
     if cmdline.link and 'urls' in rule:
         urls = json_get(rule, 'urls', list)
         if urls:
-            beg_tag += ('<a href="' + json_get(urls[0], 'value', str)
+            beg_tag += ('<a href="'
+                        + protect_attr(json_get(urls[0], 'value', str))
                         + '" target="_blank">')
             end_href = '</a>'
     return (beg_tag, end_href)
